@@ -357,6 +357,11 @@ pub fn shapes(thorough: bool) -> Vec<Shape> {
         Shape { name: "o2-d3r1c1-a11", oracles: vec![2, 1], batches: vec![vec![(0, 0), (0, 1), (1, 0)], vec![(1, 0)]], degree_bits: 3, rate_bits: 1, cap_height: 1, arity_bits: vec![1, 1], query_indices: vec![5] },
         Shape { name: "o1-d3r1c0-a2", oracles: vec![2], batches: vec![vec![(0, 0), (0, 1)], vec![(0, 1)]], degree_bits: 3, rate_bits: 1, cap_height: 0, arity_bits: vec![2], query_indices: vec![14] },
         Shape { name: "o1-d2r2c2-a1-q2", oracles: vec![1], batches: vec![vec![(0, 0)], vec![(0, 0)]], degree_bits: 2, rate_bits: 2, cap_height: 2, arity_bits: vec![1], query_indices: vec![3, 8] },
+        // a commit-phase layer with exactly 2^cap_height leaves: its Merkle paths are empty and the
+        // leaf digest is compared with the cap entry directly
+        Shape { name: "o1-d2r1c2-a1-emptypath", oracles: vec![2], batches: vec![vec![(0, 0), (0, 1)], vec![(0, 0)]], degree_bits: 2, rate_bits: 1, cap_height: 2, arity_bits: vec![1], query_indices: vec![6] },
+        // the initial trees themselves have exactly 2^cap_height leaves (empty initial paths)
+        Shape { name: "o2-d1r1c2-a0-emptyinit", oracles: vec![1, 2], batches: vec![vec![(0, 0), (1, 0), (1, 1)], vec![(1, 1)]], degree_bits: 1, rate_bits: 1, cap_height: 2, arity_bits: vec![], query_indices: vec![2] },
     ];
     if thorough {
         v.push(Shape { name: "o3-d4r1c1-a21", oracles: vec![2, 1, 2], batches: vec![vec![(0, 0), (0, 1), (1, 0), (2, 0), (2, 1)], vec![(1, 0), (2, 1)]], degree_bits: 4, rate_bits: 1, cap_height: 1, arity_bits: vec![2, 1], query_indices: vec![21] },);
